@@ -639,8 +639,11 @@ def extension_dispatch(w: Walker, key: Term, values, prefix: str) -> Dict[str, s
                 r = resolve_on(tgt, key, v)
                 if r is not None and r[0] == "mod" and r[1].startswith(prefix + "."):
                     out[v] = r[1].rsplit(".", 1)[1]
-        elif tgt[0] == "idx" and tgt[1][0] == "dict" and tgt[2] == key:
-            for k, v in tgt[1][1]:
+        elif (tgt[0] == "idx" and tgt[1][0] == "dict" and tgt[2] == key) or (
+                tgt[0] == "call" and tgt[1][0] == "attr" and tgt[1][2] == "get" and tgt[1][1][0] == "dict"
+                and tgt[2][:1] == (key,) and not tgt[3]):
+            table = tgt[1] if tgt[0] == "idx" else tgt[1][1]
+            for k, v in table[1]:
                 if k[0] == "const" and v[0] == "mod" and v[1].startswith(prefix + "."):
                     out[k[1]] = v[1].rsplit(".", 1)[1]
     return out
